@@ -401,13 +401,15 @@ def harnesses(tier):
         hs.append(Harness('statistic (2, 3) finite=False', body_statistic,
                           params=dict(shape=(2, 2), stats=STATS, subsets=['none', 'mask', 'range'], finite=False), validate=40,
                           wall_s=3400, bounds=dict(shape=(2, 2), finite=False, note='data without NaN')))
-        for nval, nb in ((4, 3), (3, 4), (4, 2)):
+        # (four symbolic values per histogram gave single queries beyond the solver time limit -> three values, more bin counts)
+        for nval, nb in ((3, 4), (3, 2), (3, 5)):
             for wts in (False, True):
                 for sub in ('mask', 'ineq', 'none'):
                     for rev in (False, True):
                         hs.append(Harness('histogram n=%d bins=%d weights=%s subset=%s rev=%s' % (nval, nb, wts, sub, rev), body_histogram,
                                           params=dict(n=nval, bins=nb, weights=wts, subset=sub, reversed_range=rev), validate=40,
-                                          weight=6, wall_s=3400, bounds=dict(values=nval, bins=nb, weights=wts, subset=sub, reversed=rev)))
+                                          weight=6, wall_s=3400, query_timeout_ms=120000,
+                                          bounds=dict(values=nval, bins=nb, weights=wts, subset=sub, reversed=rev)))
         hs.append(Harness('histogram 2-d n=3', body_histogram, params=dict(n=3, bins=2, subset='none', two_d=True),
                           validate=40, wall_s=3400, query_timeout_ms=120000, bounds=dict(values=3, bins=(2, 2))))
         hs.append(Harness('histogram 2-d n=2 weights mask', body_histogram, params=dict(n=2, bins=2, subset='mask', two_d=True, weights=True),
